@@ -548,6 +548,9 @@ impl HybridRunner {
                     Some(Err(_)) => -1,
                 };
             }
+            "probation" => {
+                cache.storage().verif_mark_probation();
+            }
             "clear" => {
                 self.truth.clear();
                 let r = self.drive(Box::pin(cache.clear()));
